@@ -14,7 +14,8 @@
 //  (A4) the classification table of RFC 3597 section 4 (`compressible_type`):
 //       a CompressibleName component is yielded only for the RFC 1035 types
 //       NS, MD, MF, CNAME, MB, MG, MR, PTR, SOA, MINFO, MX;
-//  (A5) for types without embedded names (`Components::for_nameless`) no item is an error.
+//  (A5) for types without embedded names (`Components::for_nameless`) no item is an error;
+//  (A6) and the RDATA is yielded as a single `Other` component (nothing when it is empty).
 // Caveat: the real iterator keeps returning the same `Err` after a parse error;
 // the stand-in's finite `remaining()` ends with that `Err`.  This is exact for
 // consumers that stop at the first `Err` (add_rr does, through `?`).
@@ -69,8 +70,9 @@ pub mod rdata_standin_w {
         !compressible_type(t) && !(t == 1 && class == 3) && !(t == 33 && class == 1)
     }
 
-    /// The assumptions (A1)-(A5) about the component sequence of RDATA of `rdata_len` octets.
-    pub open spec fn comps_ok(items: Seq<CompItem>, rdata_len: int, class: u16, rr_type: u16) -> bool {
+    /// The assumptions (A1)-(A6) about the component sequence of RDATA of `rdata_len` octets.
+    pub open spec fn comps_ok(items: Seq<CompItem>, octets: Seq<u8>, class: u16, rr_type: u16) -> bool {
+        let rdata_len = octets.len() as int;
         // (A3)
         &&& rdata_len <= 65535
         // (A1)
@@ -89,9 +91,20 @@ pub mod rdata_standin_w {
             })
         // (A5) RDATA without embedded names never fails to split
         &&& (nameless_type(class, rr_type) ==> all_ok(items))
+        // (A6) ... and is a single `Other` component holding all of it (none when empty)
+        &&& (nameless_type(class, rr_type) ==> (rdata_len == 0 ==> items.len() == 0)
+                && (rdata_len > 0 ==> items.len() == 1 && (match items[0] { Ok(Component::Other(o)) => o@ == octets, _ => false })))
     }
 
     pub uninterp spec fn comp_items<'a>(octets: Seq<u8>, class: Class, rr_type: Type) -> Seq<CompItem<'a>>;
+
+    /// (A5) as a free-standing axiom, for callers that must know BEFORE calling add_rr that
+    /// the RDATA will split (Writer::finish: OPT and TSIG RDATA, both nameless types).
+    #[verifier::external_body]
+    pub proof fn axiom_nameless_all_ok<'a>(octets: Seq<u8>, class: Class, rr_type: Type)
+        requires nameless_type(class.0, rr_type.0),
+        ensures all_ok(comp_items::<'a>(octets, class, rr_type)),
+    {}
 
     impl Rdata {
         pub uninterp spec fn octets(&self) -> Seq<u8>;
@@ -103,7 +116,7 @@ pub mod rdata_standin_w {
                 c.will_return_none(),
                 c.remaining() == comp_items::<'a>(self.octets(), class, rr_type),
                 // (A1)-(A4)
-                comps_ok(c.remaining(), self.octets().len() as int, class.0, rr_type.0),
+                comps_ok(c.remaining(), self.octets(), class.0, rr_type.0),
         { unimplemented!() }
 
         #[verifier::external_body]
